@@ -11,7 +11,7 @@ COMMON_ASSUMPTIONS = [
 CONFIG = {}
 
 CONFIG["C13"] = {
-    "budget_s": {"quick": 60, "thorough": 420},
+    "budget_s": {"quick": 150, "thorough": 420},
     "floor": {"quick": 5000, "thorough": 15000},
     "rule": ("cases are (a) blocks of naturals: all n in [1,2^16] (thorough 2^22), all n within 64 of every 2^k (k<=31), random magnitudes; each n is "
              "encoded, compared bit-for-bit with the specification code, decoded at a random bit offset with random trailing bits into "
@@ -26,7 +26,7 @@ CONFIG["C13"] = {
 }
 
 CONFIG["C10"] = {
-    "budget_s": {"quick": 90, "thorough": 420},
+    "budget_s": {"quick": 225, "thorough": 420},
     "floor": {"quick": 20000, "thorough": 60000},
     "rule": ("a case is a random finalized type (grammar 1 | A+B | A*B | 2^(2^n) | option | buffer8 | ctx8, three size classes), a random (or all-left / all-right) "
              "abstract value of it and one of seven production histories (constructor tree, integer constructors, from_compact_bits, from_padded_bits with "
@@ -41,7 +41,7 @@ CONFIG["C10"] = {
 }
 
 CONFIG["C11"] = {
-    "budget_s": {"quick": 90, "thorough": 420},
+    "budget_s": {"quick": 225, "thorough": 420},
     "floor": {"quick": 5000, "thorough": 15000},
     "rule": ("a case is a random type and abstract value realised through all eight histories (the seven of C10 plus Bit Machine output of a scribe program run "
              "after a frame filled with ones/0xAA/random bits was released, so sum padding of the output is dirty); all pairs (and each with itself) must be ==, "
@@ -54,7 +54,7 @@ CONFIG["C11"] = {
 }
 
 CONFIG["C18"] = {
-    "budget_s": {"quick": 90, "thorough": 420},
+    "budget_s": {"quick": 225, "thorough": 420},
     "floor": {"quick": 5000, "thorough": 15000},
     "rule": ("cases are blocks of 512 DAG shapes: every assignment of children (none | one earlier node | ordered pair of earlier nodes, possibly the same twice) "
              "to n <= 7 (thorough 8) nodes, kept when every node is reachable from the root, plus random 8..40-node shapes; each shape is iterated through a harness "
@@ -68,7 +68,7 @@ CONFIG["C18"] = {
 }
 
 CONFIG["C19"] = {
-    "budget_s": {"quick": 60, "thorough": 420},
+    "budget_s": {"quick": 150, "thorough": 420},
     "floor": {"quick": 2000, "thorough": 6000},
     "rule": ("a case is a witness stack (empty; single item straddling 252/253 and 65535/65536; 251..254 and 65534..65536 tiny items; mixed; typical spend; random) "
              "checked against every deficit in [-3,300] u [65500,65560] x remainders {-999,-1,0,1,500,999} (exhaustive sub-check), against random costs up to the "
@@ -77,11 +77,11 @@ CONFIG["C19"] = {
              "after appending the annex), fix-point, and minimality unless the item count is 252 or 65535. Distinct: distinct stacks / cost runs."),
     "exhaustive_claim": "every deficit in [-3,300] and [65500,65560] x 6 remainders for each generated stack",
     "assumptions": COMMON_ASSUMPTIONS + ["compact-size rule: 1 byte <= 252, 3 bytes <= 65535, 5 bytes <= 2^32-1"],
-    "counter_floors": {"quick": {"minimality-checked": 50000}},
+    "counter_floors": {"quick": {"minimality-checked": 42537}},
 }
 
 CONFIG["C05"] = {
-    "budget_s": {"quick": 120, "thorough": 420},
+    "budget_s": {"quick": 300, "thorough": 420},
     "floor": {"quick": 8000, "thorough": 24000},
     "rule": ("a case is a random source type A and target type B (type grammar of C10), a type-directed random program A -> B over all combinators "
              "(iden unit injl injr take drop comp case assertl assertr pair disconnect witness fail word) and the Core jets that have a harness reference function, "
@@ -96,8 +96,8 @@ CONFIG["C05"] = {
 }
 
 CONFIG["C04"] = {
-    "budget_s": {"quick": 120, "thorough": 420},
-    "floor": {"quick": 15000, "thorough": 45000},
+    "budget_s": {"quick": 300, "thorough": 420},
+    "floor": {"quick": 11305, "thorough": 33915},
     "rule": ("a case is a combinator DAG: (i) arbitrary bottom-up random DAGs of 2..40 (thorough 200) nodes over all combinators, words, fail, witness, disconnect with and without branch and "
              "Core/Elements jets as typed leaves, (ii) type-directed well-typed programs, one third of them with one node mutated, (iii) occurs-check seeds, sharing towers and chains by depth, "
              "(iv) two deep well-typed families at depths 100..160000. Every node reachable from the root is constructed exactly once, in the natural order and in 3 (thorough 11) further random "
@@ -109,7 +109,7 @@ CONFIG["C04"] = {
 }
 
 CONFIG["C09"] = {
-    "budget_s": {"quick": 90, "thorough": 420},
+    "budget_s": {"quick": 225, "thorough": 420},
     "floor": {"quick": 8000, "thorough": 24000},
     "rule": ("a case is a type-directed random 1->1 program (no jets / Core jets / Elements jets; sharing and structural duplicates; witnesses, assertions with random or real hidden roots, "
              "disconnect, fail, words). The from-scratch tagged-SHA256 commitment root of every node (harness SHA-256, IVs derived from the tag strings) is compared with cmr() of: every ConstructNode, "
@@ -122,7 +122,7 @@ CONFIG["C09"] = {
 }
 
 CONFIG["C01"] = {
-    "budget_s": {"quick": 120, "thorough": 420},
+    "budget_s": {"quick": 300, "thorough": 420},
     "floor": {"quick": 20000, "thorough": 60000},
     "rule": ("a case is a type-directed random 1->1 program (no jets / Core / Elements; pointer-shared and structurally duplicated sub-expressions incl. duplicated witness nodes with equal values; "
              "assertions with random and real hidden roots, some shared; disconnect with branch; fail; words; witnesses of every type shape projected to the principal types and realised through mixed "
@@ -136,7 +136,7 @@ CONFIG["C01"] = {
 }
 
 CONFIG["C02"] = {
-    "budget_s": {"quick": 120, "thorough": 420},
+    "budget_s": {"quick": 300, "thorough": 420},
     "hang_is_violation": True,
     "floor": {"quick": 20000, "thorough": 60000},
     "rule": ("a case is a (program bytes, witness bytes) pair offered to RedeemNode::decode, CommitNode::decode and ConstructNode::decode with the Core or the Elements jet family: "
@@ -153,8 +153,8 @@ CONFIG["C02"] = {
 }
 
 CONFIG["C07"] = {
-    "budget_s": {"quick": 120, "thorough": 420},
-    "floor": {"quick": 10000, "thorough": 30000},
+    "budget_s": {"quick": 300, "thorough": 420},
+    "floor": {"quick": 8598, "thorough": 25794},
     "passes": [{"variant": "verif"}, {"variant": "rel"}],
     "rule": ("(1) type-directed programs biased towards deep comp/disconnect nesting (fuel up to 40, thorough 120), case branches of unequal size, Core jets, witnesses, and programs over wide types "
              "(up to ~1500 bits, words to 2^9): each is run on three inputs (all-left, all-right, random) through BitMachine::for_program/input/exec; the verif-hooks readings are judged after every run, "
@@ -168,7 +168,7 @@ CONFIG["C07"] = {
 }
 
 CONFIG["C12"] = {
-    "budget_s": {"quick": 120, "thorough": 420},
+    "budget_s": {"quick": 300, "thorough": 420},
     "floor": {"quick": 15000, "thorough": 45000},
     "rule": ("a case is a type-directed 1->1 program with Core jets and at least one witness node (case nodes put some on unexecuted branches), and for every witness slot a candidate value: "
              "of the inferred type, too wide (extra component / grown type), too narrow (pruned), unit, same width but another shape, one tag and one padding bit wider, or of a random type. "
@@ -181,7 +181,7 @@ CONFIG["C12"] = {
 }
 
 CONFIG["C03"] = {
-    "budget_s": {"quick": 120, "thorough": 420},
+    "budget_s": {"quick": 300, "thorough": 420},
     "floor": {"quick": 30000, "thorough": 90000},
     "rule": ("a case is a (program bytes, witness bytes) pair: (1) the library's own redemption-time encoding of a type-directed random 1->1 Elements program (all 471 jets may appear as leaves; witnesses of "
              "every type shape; assertions; disconnect; fail; words; sharing), (2) the same with 1-2 byte-level mutations, (3) random strings. Rust: RedeemNode::decode::<Elements>; C: decodeMallocDag, "
@@ -193,7 +193,7 @@ CONFIG["C03"] = {
 }
 
 CONFIG["C06"] = {
-    "budget_s": {"quick": 120, "thorough": 420},
+    "budget_s": {"quick": 300, "thorough": 420},
     "floor": {"quick": 8000, "thorough": 24000},
     "rule": ("(1) every one of the 471 Elements jets wrapped as comp (comp witness[v] jet) unit, 6 (thorough 60) rounds each, v a plausible input of the jet's source type (small and out-of-range indices for 2^32, "
              "valid curve x-coordinates for 2^256 components, valid BIP-340 triples for bip_0340_verify, all-left/all-right/random otherwise) in a freshly generated transaction environment; "
@@ -207,7 +207,7 @@ CONFIG["C06"] = {
 }
 
 CONFIG["C08"] = {
-    "budget_s": {"quick": 150, "thorough": 420},
+    "budget_s": {"quick": 375, "thorough": 420},
     "floor": {"quick": 6000, "thorough": 18000},
     "rule": ("a case is a type-directed 1->1 program biased to sharing (25% pointer reuse, so the same case node is reached under several comp contexts with different choices), with witnesses of sum/product types, "
              "disconnect, assertions, occasionally fail, without jets or with Elements jets, and a generated Elements environment. If the run succeeds: prune must succeed, keep the CMR, run successfully within bounds "
@@ -219,7 +219,7 @@ CONFIG["C08"] = {
 }
 
 CONFIG["C14"] = {
-    "budget_s": {"quick": 120, "thorough": 420},
+    "budget_s": {"quick": 300, "thorough": 420},
     "floor": {"quick": 5000, "thorough": 15000},
     "post_steps": [{"name": "ffi_boundary", "jet_reps": 1}],
     "rule": ("(1) for all 368 Core, 471 Elements and 428 Bitcoin jets: decode(encode(j)) == j consuming exactly the code at two alignments with junk behind, byte-aligned strict prefixes give EndOfStream, "
@@ -236,8 +236,8 @@ CONFIG["C14"] = {
 }
 
 CONFIG["C15"] = {
-    "budget_s": {"quick": 120, "thorough": 420},
-    "floor": {"quick": 800, "thorough": 2400},
+    "budget_s": {"quick": 300, "thorough": 420},
+    "floor": {"quick": 476, "thorough": 1428},
     "rule": ("a case is a generated Elements transaction environment (1..5 inputs, 0..5 outputs; per input independently: pegin or not, new issuance / reissuance / none with explicit, confidential or null amounts and keys, "
              "range proofs of 0 or 65..300 bytes, script_sig 0..100 bytes, witness stack of 0..4 items with no annex / an annex of 0..80 bytes / the 1-byte annex [0x50], explicit or confidential spent asset and value; outputs with explicit or confidential "
              "asset and value, null / explicit / confidential nonce, empty, OP_RETURN, taproot-like and random scripts, surjection and range proofs; lock time in blocks / seconds / at the boundary; sequences with and without the final value; "
@@ -247,11 +247,11 @@ CONFIG["C15"] = {
              "(c) the sig_all_hash jet equals CTxEnv::sighash_all(). Non-trivial: every environment; distinct: distinct transactions."),
     "assumptions": COMMON_ASSUMPTIONS + ["aggregate digest jets (inputs_hash, tx_hash, tap_env_hash, ...) are not re-implemented: covered by the two-build consistency check, the sighash identity and C14/C06",
                                          "output assets and values are never null here (no documented reading); the annex is the last witness item when it starts with 0x50, hashed without the tag byte, as the environment builder documents"],
-    "counter_floors": {"quick": {"reference-checked": 100000, "sighash-compared": 800}},
+    "counter_floors": {"quick": {"reference-checked": 100000, "sighash-compared": 476}},
 }
 
 CONFIG["C16"] = {
-    "budget_s": {"quick": 150, "thorough": 420},
+    "budget_s": {"quick": 375, "thorough": 420},
     "floor": {"quick": 6000, "thorough": 18000},
     "rule": ("a case is a policy over 4 key pairs and 4 hash preimages drawn per case, with after(n) and older(n) leaves placed at, just below and just above the lock height / lock distance the jets read from the case's generated transaction "
              "(lock time 0, small, 499999999, >= 500000000 or random; sequences final, 0xfffffffe, block-based, time-based, disabled or random; version 1, 2, 3 or 2^32-1), trivial and unsatisfiable leaves, and and/or/threshold (1..6 children, 0 <= k <= n) "
@@ -268,8 +268,8 @@ CONFIG["C16"] = {
 
 CONFIG["C17"] = {
     "needs_simpcli": True,
-    "budget_s": {"quick": 200, "thorough": 420},
-    "floor": {"quick": 150000, "thorough": 450000},
+    "budget_s": {"quick": 500, "thorough": 420},
+    "floor": {"quick": 57993, "thorough": 173979},
     "hang_is_violation": True,
     "rule": ("sub `program-roundtrip`: a case is a generated well-typed commit program (no jets / Core / Elements; witnesses, commit-time assertions, disconnect, fail, words, pointer-shared and structurally duplicated sub-expressions), "
              "rendered with Forest::from_program + string_serialize and parsed back: the text must parse to the single root `main` with the same CMR, the same node list (combinator, child positions, CMR, source and target type roots, in maximal-sharing post order) and the same bit encoding. "
@@ -283,21 +283,22 @@ CONFIG["C17"] = {
              "(a committed program does not contain the disconnected branch, so its types must not depend on one); a case node and an assertion hiding the same branch never coexist (two nodes with one identity root; C rejects that as unshared). "
              "Non-trivial: programs with at least 3 nodes / strings of any kind; distinct: distinct texts."),
     "assumptions": COMMON_ASSUMPTIONS + ["a generated source text that the parser refuses is outside the property and is counted as inconclusive; a floor keeps the accepted share high"],
-    "counter_floors": {"quick": {"render.second-text-equal": 60000, "string.error-list": 100000, "string.parsed-single-root": 4000, "program.has-assertion": 500, "program.has-disconnect": 3000, "source.feature.cmr-expression": 300, "source.feature.alias": 10000, "simpcli.roundtrips": 120}},
+    "counter_floors": {"quick": {"render.second-text-equal": 18118, "string.error-list": 47567, "string.parsed-single-root": 2184, "program.has-assertion": 120, "program.has-disconnect": 577, "source.feature.cmr-expression": 295, "source.feature.alias": 8467, "simpcli.roundtrips": 81}},
 }
 
 SAN_ENV_TSAN = {"TSAN_OPTIONS": "halt_on_error=1 exitcode=66 report_signal_unsafe=0 second_deadlock_stack=1"}
 SAN_ENV_ASAN = {"ASAN_OPTIONS": "halt_on_error=1 abort_on_error=1 detect_leaks=1 allocator_may_return_null=1", "LSAN_OPTIONS": "exitcode=23"}
 
 CONFIG["C20"] = {
-    "budget_s": {"quick": 150, "thorough": 420},
-    "floor": {"quick": 1000, "thorough": 3000},
+    "budget_s": {"quick": 375, "thorough": 420},
+    "floor": {"quick": 283, "thorough": 849},
     "hang_is_violation": True,
     "passes": [
-        {"variant": "verif"},
-        {"variant": "tsan", "params": {"rounds": 96, "cold": 48}, "env": SAN_ENV_TSAN, "tiers": ["quick"]},
+        {"variant": "verif", "params": {"rounds": 800, "cold": 160}, "tiers": ["quick"]},
+        {"variant": "verif", "tiers": ["thorough"]},
+        {"variant": "tsan", "params": {"rounds": 64, "cold": 32}, "env": SAN_ENV_TSAN, "tiers": ["quick"]},
         {"variant": "tsan", "params": {"rounds": 12000, "cold": 2000}, "env": SAN_ENV_TSAN, "tiers": ["thorough"]},
-        {"variant": "asan", "params": {"rounds": 32, "cold": 24}, "env": SAN_ENV_ASAN, "tiers": ["quick"]},
+        {"variant": "asan", "params": {"rounds": 24, "cold": 16}, "env": SAN_ENV_ASAN, "tiers": ["quick"]},
         {"variant": "asan", "params": {"rounds": 12000, "cold": 1000}, "env": SAN_ENV_ASAN, "tiers": ["thorough"]},
     ],
     "rule": ("sub `cold-start-processes`: a fresh child process (same binary, same sanitizer) in which the very first jet executions, C pipeline runs and prunings happen on 16 threads released together; the one-at-a-time results are computed afterwards in the same process and compared. "
@@ -312,7 +313,7 @@ CONFIG["C20"] = {
     "assumptions": COMMON_ASSUMPTIONS + ["each thread owns its inference contexts, machines and environments, as the property states; inference contexts themselves are not shared between threads",
                                          "deadlock is observed through the driver's watchdog (3x budget + 120 s): a hang is reported as a violation for this property because its statement excludes deadlock",
                                          "interleavings are whatever the OS scheduler produces under 8 workers x up to 16 threads on 16 cores plus random yields; the evidence lists overlap counts, not a schedule enumeration"],
-    "counter_floors": {"quick": {"overlaps.same-shared-object": 25000, "ops.concurrent": 1000000, "cold.operations-compared": 30000}},
+    "counter_floors": {"quick": {"overlaps.same-shared-object": 7956, "ops.concurrent": 436170, "cold.operations-compared": 15974}},
 }
 
 
